@@ -81,6 +81,9 @@ typedef struct private_state {
   bitrate_manager_state bms;
 
   ogg_int64_t sample_count;
+
+  int lapout_solid; /* synthesis: pcm buffer already consolidated by
+                       vorbis_synthesis_lapout since the last blockin */
 } private_state;
 
 /* codec_setup_info contains all the setup information specific to the
